@@ -198,6 +198,11 @@ S_t1b == << [name |-> "a1.svc", type |-> "login-ipr"], [name |-> "b2.svc", type 
 S_t1c == << [name |-> "a1.svc", type |-> "login"], [name |-> "b2.svc", type |-> "login"] >>
 S_t1d == << [name |-> "a1.svc", type |-> "combined"] >>
 S_none == << >>
+\* less usual configurations: an entry whose protocol word is unknown (the service is listed but never queried), a
+\* dronecheck service alone (no service ever takes a password), two services of which one's name is a prefix of the other's
+S_unk == << [name |-> "a1.svc", type |-> "login"], [name |-> "m5.svc", type |-> "gopher"], [name |-> "z9.svc", type |-> "dronecheck"] >>
+S_drone == << [name |-> "b2.svc", type |-> "dronecheck"] >>
+S_pref == << [name |-> "a1.svc", type |-> "dronecheck"], [name |-> "a1.svc2", type |-> "login"] >>
 S_noxq == << [name |-> "", type |-> "@noxquery"] >>
 NoBug == {}
 NoRich == {}
